@@ -39,8 +39,10 @@ ElemOK(e, c, i, j) ==
      ELSE IF ExactElem(c, i, j) /\ repr THEN o = ref                               \* ExactOnExactDomain
      ELSE BLe(SDist(o, ref), tol)
 
+\* rank-3 activations alternate between the batch layouts (2, r/2), (1, r) and (r, 1)
 BatchShape(c) == IF c.brank = 1 THEN <<>> ELSE IF c.brank = 2 THEN <<c.rows>>
-                 ELSE (IF c.rows % 2 = 0 THEN <<2, c.rows \div 2>> ELSE <<1, c.rows>>)
+                 ELSE (IF (c.rows + c.K) % 3 = 0 THEN <<c.rows, 1>>
+                       ELSE IF c.rows % 2 = 0 THEN <<2, c.rows \div 2>> ELSE <<1, c.rows>>)
 
 CallOK(e) ==
   LET c == e.cfg IN
